@@ -94,6 +94,13 @@ StrC(rec) ==
         ds  == Denote(s)
     IN  [ C13_bounded |-> \A k \in 1..4 : rec.r[k] \in 0..len,
           C13_agree   |-> rec.pl = 1 /\ rec.sf # 0 => Canon(rec.a0) = Canon(rec.sa),
+          (* with trailing text allowed the parser stops where the address ends: when what it consumed is itself a   *)
+          (* plain address string of the standard syntax (e.g. the "x" of "x/24" with bits = NULL, of "x/a", of "x y") *)
+          (* the address delivered is the one the standard parser gives for that text                                *)
+          C13_agree_trail |-> /\ (rec.r[2] \in 1..len /\ Denote(SubSeq(s, 1, rec.r[2])) # Bad)
+                                    => Canon(rec.a1) = Canon(Denote(SubSeq(s, 1, rec.r[2])))
+                              /\ (rec.r[4] \in 1..len /\ Denote(SubSeq(s, 1, rec.r[4])) # Bad)
+                                    => Canon(rec.a3) = Canon(Denote(SubSeq(s, 1, rec.r[4]))),
           C12_idem_s  |-> rec.pl = 1 => /\ Denote(rec.t) = Canon(rec.a0)
                                         /\ rec.qr = Len(rec.t)
                                         /\ rec.qa = Canon(rec.a0)
